@@ -83,6 +83,41 @@ def build_ops(fa):
     ops["validate_shared3"] = lambda: validate(D3, PREC, raise_errors=False)
     ops["json_read"] = lambda: list(json_reader(io.StringIO(text), PREC))
 
+    # resolution with one parsed reader schema object shared by both threads (first use happens inside the race)
+    def mk_resolve(d):
+        data = sl(PREC, d)
+
+        def run():
+            rs = ops["_reader_schema"]()
+            return fa.schemaless_reader(io.BytesIO(data), PREC, rs)
+        return run
+    READER = {"type": "record", "name": "t.Rec", "fields": [
+        {"name": "s", "type": "string"}, {"name": "a", "type": "double"}, {"name": "added", "type": "int", "default": 42},
+        {"name": "u", "type": ["null", {"type": "record", "name": "Item", "fields": [{"name": "v", "type": "long"}, {"name": "w", "type": "string", "default": "dw"}]}]},
+        {"name": "arr2", "type": {"type": "array", "items": "double"}, "default": [], "aliases": ["arr"]}]}
+    shared_reader = {}
+
+    def reader_schema():
+        # one parsed object per pair execution: created by whoever comes first, then shared
+        if "p" not in shared_reader:
+            shared_reader["p"] = fa.parse_schema(copy.deepcopy(READER))
+        return shared_reader["p"]
+    ops["_reader_schema"] = reader_schema
+    ops["_reset"] = shared_reader.clear
+    ops["resolve_shared"] = mk_resolve(D1)
+    ops["resolve_shared3"] = mk_resolve(D3)
+
+    # many distinct record schemas written in one operation (bounded caches keyed by schema get evicted)
+    MANY = [fa.parse_schema({"type": "record", "name": "m.R%d" % i, "fields": [{"name": "f%d" % i, "type": "int"}, {"name": "g", "type": "string"}]})
+            for i in range(300)]
+
+    def write_many():
+        out = []
+        for i, sch in enumerate(MANY):
+            out.append(sl(sch, {"f%d" % i: i, "g": "x"}))
+        return b"".join(out)
+    ops["write_many_schemas"] = write_many
+
     def cw():
         fo = io.BytesIO()
         fa.writer(fo, PREC, [D1, D2, D1], codec="deflate", sync_marker=b"0123456789abcdef", sync_interval=10)
@@ -100,7 +135,9 @@ PAIRS = [("read_dec5", "read_dec20"), ("read_dec20", "read_dec5"), ("write_share
          # the same operation on both sides (per-class / per-module scratch state shows up here)
          ("json_write", "json_write2"), ("json_write2", "json_write"), ("json_read", "json_read2"), ("write_shared", "write_shared3"),
          ("read_shared", "read_shared3"), ("validate_shared", "validate_shared3"), ("container_write", "container_write"),
-         ("container_read", "container_read"), ("write_fdec_a", "write_fdec_a"), ("read_dec5", "read_dec5")]
+         ("container_read", "container_read"), ("write_fdec_a", "write_fdec_a"), ("read_dec5", "read_dec5"),
+         ("resolve_shared", "resolve_shared3"), ("resolve_shared3", "resolve_shared"), ("write_shared", "write_many_schemas"),
+         ("read_shared", "write_many_schemas")]
 
 
 def outcome(fn):
@@ -295,11 +332,13 @@ def _replay_pair(job):
     ops = _OPS[repo]
     n1 = n2 = 0
     for k in points:
+        ops["_reset"]()
         rx, ry, _ = run_preempted(repo, ops[x], ops[y], k)
         n1 += 1
         if rx != sx or ry != sy:
             return (k, rx, ry), n1, n2
     for k1, k2 in pts2:
+        ops["_reset"]()
         rx, ry = run_nested(repo, ops[x], ops[y], k1, k2)
         n2 += 1
         if rx != sx or ry != sy:
@@ -316,7 +355,11 @@ def run_c18(ctx, fa):
     seq = {}
     foot = {}
     for name, fn in ops.items():
+        if name.startswith("_"):
+            continue
+        ops["_reset"]()
         r1 = outcome(fn)
+        ops["_reset"]()
         n, writes, r2 = footprint(ctx.repo, fn)
         if r1 != r2:
             ctx.machinery.append("operation %s is not deterministic when run alone" % name)
